@@ -3,7 +3,8 @@ open Conv
 module M = Model
 
 let label_of (t : string) : M.label =
-  let num s = nat_of_int (int_of_string s) in
+  (* a thread that is not a pool worker reports usize::MAX: any id the pool cannot have *)
+  let num s = nat_of_int (match int_of_string_opt s with Some n when n >= 0 && n < 100000 -> n | _ -> 99999) in
   let rest = String.sub t 1 (String.length t - 1) in
   match t.[0] with
   | 'S' -> M.LSend | 'D' -> M.LDropSender | 'J' -> M.LJoined | 'R' -> M.LReturned
